@@ -27,6 +27,7 @@ Section Reach.
   Variable cparens : paren_table.
   Variable fname : string.
   Variable refs : string -> ty -> string -> range -> option (list string).
+  Variable fns : string -> ty -> option (list FuncCands.fcand).
   Variable p : pos.
   (* a closing parenthesis is one byte (or missing) *)
   Hypothesis cparens_wf : forall r o c, lookup_parens cparens r = Some (o, c) -> re c <= rs c + 1.
@@ -315,17 +316,23 @@ Section Reach.
           repeat match goal with |- context [Z.ltb ?a ?b] => destruct (Z.ltb_spec a b) end; cbn [r_start r_end p_byte]; lia.
     Qed.
 
-    Lemma fn_items_ok e : cexpr_wf e -> vres_ok (fn_items p e).
+    Lemma fn_cands_ok t0 prefix sb eb : sb <= PP <= eb -> Forall item_ok (fn_cands fns t0 prefix sb eb).
+    Proof.
+      intros H. unfold fn_cands. destruct (fns prefix t0) as [l|]; [|constructor; [exact H|constructor]].
+      apply Forall_forall. intros i Hi. apply in_map_iff in Hi as (c & <- & _). exact H.
+    Qed.
+
+    Lemma fn_items_ok t0 e : cexpr_wf e -> vres_ok (fn_items fns p t0 e).
     Proof.
       intros Hw. destruct e as [|x]; cbn [fn_items].
-      - apply ok_ret. constructor; [unfold item_ok, P, pb; cbn; lia|constructor].
+      - apply ok_ret. apply fn_cands_ok. unfold P, pb; lia.
       - cbn in Hw. open_c x Hw r vt n Hn. destruct n; try apply ok_nil; try apply ok_skip.
         destruct steps as [|[rr| | | |] [|]]; try apply ok_nil.
         inversion Hn as [? ? ? ? Hlen Hroot| | | | | | | | | | | | |]; subst.
         specialize (Hroot rr [] eq_refl).
         destruct (_ || _) eqn:Eg; [apply ok_nil|].
         apply orb_false_elim in Eg as (E1 & E2). apply Z.ltb_ge in E1. apply Z.ltb_ge in E2.
-        apply ok_ret. constructor; [|constructor]. unfold item_ok; cbn. unfold P, pb in *. lia.
+        apply ok_ret. apply fn_cands_ok. unfold P, pb in *. lia.
     Qed.
 
     Lemma index_ok e : cexpr_wf e -> vres_ok (index_cands empties rec e).
@@ -336,7 +343,7 @@ Section Reach.
       - inversion Hn; subst. apply Hrec. apply norm_wf. assumption.
     Qed.
 
-    Lemma leaf_ok t skip e : cexpr_wf e -> vres_ok (leaf_cands file empties vals fname refs p rec t skip e).
+    Lemma leaf_ok t skip e : cexpr_wf e -> vres_ok (leaf_cands file empties vals fname refs fns p rec t skip e).
     Proof.
       intros Hw. unfold leaf_cands. apply ok_app; [apply ref_items_ok|]. apply ok_app; [apply fn_items_ok; exact Hw|].
       apply ok_app; [apply literal_type_ok; exact Hw|apply index_ok; exact Hw].
@@ -370,12 +377,12 @@ Section Reach.
         eapply IH; [exact Hr| |exact H]. intros b Eb. injection Eb as <-. exact Hx.
     Qed.
 
-    Lemma call_ok x : wfc x -> vres_ok (call_cands file empties funcs parens p rec x).
+    Lemma call_ok t0 x : wfc x -> vres_ok (call_cands file empties funcs parens fns p rec t0 x).
     Proof.
       intros Hw. open_c x Hw r vt n Hn. unfold call_cands. cbn [se_node se_rng]. destruct n; try apply ok_nil.
       inversion Hn as [| | | | | | | | | | | |? ? ? ? Hs Hne He Hargs|]; subst.
       destruct (contains_pos name_rng p) eqn:Ec.
-      - apply ok_ret. constructor; [|constructor]. unfold item_ok; cbn.
+      - apply ok_ret. apply fn_cands_ok.
         unfold contains_pos, contains_offset in Ec. apply andb_prop in Ec as (E1 & E2). apply Z.leb_le in E1. apply Z.ltb_lt in E2.
         unfold rs, re in *. lia.
       - destruct (alookup name funcs) as [[params varp]|]; [|apply ok_nil].
@@ -399,7 +406,7 @@ Section Reach.
         destruct params; [destruct varp; [exact Hmain|apply ok_nil]|exact Hmain].
     Qed.
 
-    Lemma non_complex_ok t skip e : cexpr_wf e -> vres_ok (non_complex_cands file empties vals funcs parens fname refs p rec t skip e).
+    Lemma non_complex_ok t skip e : cexpr_wf e -> vres_ok (non_complex_cands file empties vals funcs parens fname refs fns p rec t skip e).
     Proof.
       intros Hw. destruct e as [|x]; cbn [non_complex_cands]; [apply leaf_ok; exact I|].
       pose proof (leaf_ok t skip (CExpr x) Hw) as Hleaf.
@@ -428,7 +435,7 @@ Section Reach.
             apply ok_app; [apply Hrec; apply norm_wf; auto|exact Hleaf].
     Qed.
 
-    Lemma any_ok t skip e : cexpr_wf e -> vres_ok (any_cands file empties vals funcs parens fname refs p rec t skip e).
+    Lemma any_ok t skip e : cexpr_wf e -> vres_ok (any_cands file empties vals funcs parens fname refs fns p rec t skip e).
     Proof.
       intros Hw. unfold any_cands. destruct skip; [apply non_complex_ok; exact Hw|].
       destruct e as [|x]; [apply non_complex_ok; exact Hw|].
@@ -436,7 +443,7 @@ Section Reach.
       destruct t; try exact Hnc; destruct (se_node x); try exact Hnc; try (apply Hrec; exact Hw).
     Qed.
 
-    Lemma step_ok c e : cexpr_wf e -> vres_ok (step_cands prefill file opens empties vals funcs parens fname refs p rec rec_td c e).
+    Lemma step_ok c e : cexpr_wf e -> vres_ok (step_cands prefill file opens empties vals funcs parens fname refs fns p rec rec_td c e).
     Proof.
       intros Hw. destruct c; cbn [step_cands].
       - apply any_ok; exact Hw.
@@ -554,7 +561,7 @@ Section Reach.
   Qed.
 
   (* every candidate and every place reserved for reference / function candidates reaches the cursor *)
-  Theorem value_cands_reach_cursor fuel : forall c e, cexpr_wf e -> vres_ok (value_cands prefill file opens empties vals funcs parens cparens fname refs p fuel c e).
+  Theorem value_cands_reach_cursor fuel : forall c e, cexpr_wf e -> vres_ok (value_cands prefill file opens empties vals funcs parens cparens fname refs fns p fuel c e).
   Proof.
     induction fuel as [|n IH]; intros c e Hw; cbn [value_cands]; [apply ok_none|].
     apply step_ok; [exact IH|apply type_cands_ok|exact Hw].
@@ -586,6 +593,7 @@ Section Keywords.
   Variable cparens : paren_table.
   Variable fname : string.
   Variable refs : string -> ty -> string -> range -> option (list string).
+  Variable fns : string -> ty -> option (list FuncCands.fcand).
   Variable p : pos.
 
   Definition kw_item (c : constraint) (i : vitem) : Prop :=
@@ -845,12 +853,19 @@ Section Keywords.
       destruct (se_node x); try apply kw_nil; try apply kw_skip. apply kw_ret, kw_other, ref_cands_other.
     Qed.
 
-    Lemma fn_items_kw c e : vres_kw c (fn_items p e).
+    Lemma fn_cands_other t0 prefix sb eb : Forall other_kind (fn_cands fns t0 prefix sb eb).
     Proof.
-      destruct e as [|x]; cbn [fn_items]; [apply one_other; unfold other_kind; cbn; unfold kFunction, kKeyword; discriminate|].
+      unfold fn_cands. destruct (fns prefix t0) as [l|].
+      - apply Forall_forall. intros i Hi. apply in_map_iff in Hi as (c0 & <- & _). unfold other_kind; cbn; unfold kFunction, kKeyword; discriminate.
+      - constructor; [unfold other_kind; cbn; unfold kFunction, kKeyword; discriminate|constructor].
+    Qed.
+
+    Lemma fn_items_kw c t0 e : vres_kw c (fn_items fns p t0 e).
+    Proof.
+      destruct e as [|x]; cbn [fn_items]; [apply kw_ret, kw_other, fn_cands_other|].
       destruct (se_node x); try apply kw_nil; try apply kw_skip.
       destruct steps as [|[rr| | | |] [|]]; try apply kw_nil.
-      destruct (_ || _); [apply kw_nil|]. apply one_other; unfold other_kind; cbn; unfold kFunction, kKeyword; discriminate.
+      destruct (_ || _); [apply kw_nil|]. apply kw_ret, kw_other, fn_cands_other.
     Qed.
 
     Lemma index_kw c e : vres_kw c (index_cands empties rec e).
@@ -859,23 +874,23 @@ Section Keywords.
       destruct (rev steps) as [|[| | | |] [|]]; try apply kw_nil. apply rec_any.
     Qed.
 
-    Lemma leaf_kw c t skip e : vres_kw c (leaf_cands file empties vals fname refs p rec t skip e).
+    Lemma leaf_kw c t skip e : vres_kw c (leaf_cands file empties vals fname refs fns p rec t skip e).
     Proof.
       unfold leaf_cands. apply kw_app; [apply ref_items_kw|]. apply kw_app; [apply fn_items_kw|].
       apply kw_app; [apply literal_type_kw|apply index_kw].
     Qed.
 
-    Lemma call_kw c x : vres_kw c (call_cands file empties funcs parens p rec x).
+    Lemma call_kw c t0 x : vres_kw c (call_cands file empties funcs parens fns p rec t0 x).
     Proof.
       unfold call_cands. destruct (se_node x); try apply kw_nil.
-      destruct (contains_pos _ _); [apply one_other; unfold other_kind; cbn; unfold kFunction, kKeyword; discriminate|].
+      destruct (contains_pos _ _); [apply kw_ret, kw_other, fn_cands_other|].
       repeat first [ apply kw_nil | apply rec_any
                    | match goal with |- vres_kw _ (match ?y with _ => _ end) => destruct y end
                    | match goal with |- vres_kw _ (if ?b then _ else _) => destruct b end
                    | match goal with |- vres_kw _ (let '(_, _) := ?y in _) => destruct y end ].
     Qed.
 
-    Lemma non_complex_kw c t skip e : vres_kw c (non_complex_cands file empties vals funcs parens fname refs p rec t skip e).
+    Lemma non_complex_kw c t skip e : vres_kw c (non_complex_cands file empties vals funcs parens fname refs fns p rec t skip e).
     Proof.
       destruct e as [|x]; cbn [non_complex_cands]; [apply leaf_kw|].
       pose proof (leaf_kw c t skip (CExpr x)) as Hleaf.
@@ -886,7 +901,7 @@ Section Keywords.
                      | match goal with |- vres_kw _ (if ?b then _ else _) => destruct b end ].
     Qed.
 
-    Lemma any_kw c t skip e : vres_kw c (any_cands file empties vals funcs parens fname refs p rec t skip e).
+    Lemma any_kw c t skip e : vres_kw c (any_cands file empties vals funcs parens fname refs fns p rec t skip e).
     Proof.
       unfold any_cands. destruct skip; [apply non_complex_kw|]. destruct e as [|x]; [apply non_complex_kw|].
       pose proof (non_complex_kw c t false (CExpr x)) as Hnc.
@@ -898,7 +913,7 @@ Section Keywords.
         match goal with Hk : has_kw (as_cons _) _ |- _ => cbn in Hk; eapply no_kw_lit; exact Hk end.
     Qed.
 
-    Lemma step_kw c e : vres_kw c (step_cands prefill file opens empties vals funcs parens fname refs p rec rec_td c e).
+    Lemma step_kw c e : vres_kw c (step_cands prefill file opens empties vals funcs parens fname refs fns p rec rec_td c e).
     Proof.
       destruct c; cbn [step_cands].
       - apply any_kw.
@@ -966,7 +981,7 @@ Section Keywords.
     induction fuel as [|n IH]; intros c e; cbn [type_cands]; [apply kw_none|]. apply type_decl_kw. exact IH.
   Qed.
 
-  Theorem value_cands_keywords_admitted fuel : forall c e, vres_kw c (value_cands prefill file opens empties vals funcs parens cparens fname refs p fuel c e).
+  Theorem value_cands_keywords_admitted fuel : forall c e, vres_kw c (value_cands prefill file opens empties vals funcs parens cparens fname refs fns p fuel c e).
   Proof.
     induction fuel as [|n IH]; intros c e; cbn [value_cands]; [apply kw_none|]. apply step_kw; [exact IH|intros c' e'; apply type_cands_kw].
   Qed.
@@ -1075,6 +1090,7 @@ Section NoInternalFailure.
   Variable cparens : paren_table.
   Variable fname : string.
   Variable refs : string -> ty -> string -> range -> option (list string).
+  Variable fns : string -> ty -> option (list FuncCands.fcand).
   Variable p : pos.
 
   Lemma nn_ret l : vret l <> None. Proof. discriminate. Qed.
@@ -1169,31 +1185,31 @@ Section NoInternalFailure.
 
     Lemma ref_items_nn sc0 t0 e : ref_items file fname refs p sc0 t0 e <> None.
     Proof. destruct e as [|x]; cbn [ref_items]; nn. Qed.
-    Lemma fn_items_nn e : fn_items p e <> None.
+    Lemma fn_items_nn t0 e : fn_items fns p t0 e <> None.
     Proof. destruct e as [|x]; cbn [fn_items]; nn. Qed.
     Lemma index_nn e : index_cands empties rec e <> None.
     Proof. destruct e as [|x]; cbn [index_cands]; nn. Qed.
-    Lemma leaf_nn t skip e : leaf_cands file empties vals fname refs p rec t skip e <> None.
+    Lemma leaf_nn t skip e : leaf_cands file empties vals fname refs fns p rec t skip e <> None.
     Proof. unfold leaf_cands. apply nn_app; [apply ref_items_nn|]. apply nn_app; [apply fn_items_nn|]. apply nn_app; [apply literal_type_nn|apply index_nn]. Qed.
 
-    Lemma call_nn x : call_cands file empties funcs parens p rec x <> None.
+    Lemma call_nn t0 x : call_cands file empties funcs parens fns p rec t0 x <> None.
     Proof. unfold call_cands. nn. Qed.
 
-    Lemma non_complex_nn t skip e : non_complex_cands file empties vals funcs parens fname refs p rec t skip e <> None.
+    Lemma non_complex_nn t skip e : non_complex_cands file empties vals funcs parens fname refs fns p rec t skip e <> None.
     Proof.
       destruct e as [|x]; cbn [non_complex_cands]; [apply leaf_nn|].
-      pose proof (leaf_nn t skip (CExpr x)) as Hleaf. pose proof (call_nn x) as Hcall.
+      pose proof (leaf_nn t skip (CExpr x)) as Hleaf. pose proof (call_nn t x) as Hcall.
       destruct (se_node x); try exact Hleaf; try exact Hcall; nn.
     Qed.
 
-    Lemma any_nn t skip e : any_cands file empties vals funcs parens fname refs p rec t skip e <> None.
+    Lemma any_nn t skip e : any_cands file empties vals funcs parens fname refs fns p rec t skip e <> None.
     Proof.
       unfold any_cands. destruct skip; [apply non_complex_nn|]. destruct e as [|x]; [apply non_complex_nn|].
       pose proof (non_complex_nn t false (CExpr x)) as Hnc.
       destruct t; try exact Hnc; destruct (se_node x); try exact Hnc; try apply Hrec.
     Qed.
 
-    Lemma step_nn c e : step_cands prefill file opens empties vals funcs parens fname refs p rec rec_td c e <> None.
+    Lemma step_nn c e : step_cands prefill file opens empties vals funcs parens fname refs fns p rec rec_td c e <> None.
     Proof.
       destruct c; cbn [step_cands].
       - apply any_nn. - apply literal_type_nn. - apply literal_value_nn. - apply keyword_nn.
@@ -1247,8 +1263,8 @@ Section NoInternalFailure.
   Proof. intros H e. cbn [type_cands]. apply type_decl_nn. exact H. Qed.
 
   Theorem value_cands_no_internal_failure n :
-    (forall c' e', value_cands prefill file opens empties vals funcs parens cparens fname refs p n c' e' <> None) ->
+    (forall c' e', value_cands prefill file opens empties vals funcs parens cparens fname refs fns p n c' e' <> None) ->
     (forall e', type_cands file opens empties cparens p n e' <> None) ->
-    forall c e, value_cands prefill file opens empties vals funcs parens cparens fname refs p (S n) c e <> None.
+    forall c e, value_cands prefill file opens empties vals funcs parens cparens fname refs fns p (S n) c e <> None.
   Proof. intros H Ht c e. cbn [value_cands]. apply step_nn; [exact H|exact Ht]. Qed.
 End NoInternalFailure.
